@@ -16,7 +16,7 @@ var rejectionSpecs = []e5path.RejectionSpec{
 	{MsgPrefix: "file is not a module", Requires: []string{".Metadata"}},
 	{MsgPrefix: "duplicate condition", Requires: []string{"#1 is true"}},
 	{MsgPrefix: "extended type", Requires: []string{"== -1 is true"}},
-	{MsgPrefix: "relation", Requires: []string{"slices.Contains", "is true"}},
+	{MsgPrefix: "relation", Requires: []string{"slices.Contains|.Relations[", "is true"}},
 }
 
 func runC07(r *oblig.Report) {
